@@ -411,13 +411,15 @@ macro_rules! shapes16 {
         $( ds_harness!($name, $D, $k, shape_t!($s), shape_t!($p), shape_t!($o), shape_g!($g)); )*
     };
 }
+// constants of the shape harnesses are given as Some(t) / Some(gn) (no slice iteration in `matches`);
+// the [t] / [gn] forms are exercised by the residual-matcher harnesses below
 macro_rules! shape_t {
     (0) => { PAny };
-    (1) => { PConst(any_t()) };
+    (1) => { POpt(any_t()) };
 }
 macro_rules! shape_g {
     (0) => { PAny };
-    (1) => { GConst(any_g()) };
+    (1) => { GOpt(any_g()) };
 }
 
 shapes16!(GenericFastDataset<VTI>, 2;
@@ -441,6 +443,11 @@ ds_harness!(c01_fd_res_gtwo, GenericFastDataset<VTI>, 2, PAny, PAny, PAny, GTwo(
 ds_harness!(c01_fd_res_gnot_oconst, GenericFastDataset<VTI>, 2, PAny, PAny, PConst(any_t()), GNot(any_g()));
 ds_harness!(c01_fd_res_gkind_pconst, GenericFastDataset<VTI>, 2, PAny, PConst(any_t()), PAny, GKind(kani::any()));
 ds_harness!(c01_fd_opt_s_gopt, GenericFastDataset<VTI>, 2, POpt(any_t()), PAny, PAny, GOpt(any_g()));
+// g and p constant (gpos index), residual matchers on BOTH s and o that accept different terms
+ds_harness!(c01_fd_res_so_gpconst, GenericFastDataset<VTI>, 2, PNot(any_t()), POpt(any_t()), PTwo(any_t(), any_t()), GOpt(any_g()));
+ds_harness!(c01_fd_res_so_gpconst_light, GenericFastDataset<VTI>, 2, PKind(kani::any()), POpt(any_t()), PNot(any_t()), GOpt(any_g()));
+ds_harness!(c01_fd_res_po_gsconst, GenericFastDataset<VTI>, 2, POpt(any_t()), PNot(any_t()), PKind(kani::any()), GOpt(any_g()));
+ds_harness!(c01_fd_res_sp_oconst, GenericFastDataset<VTI>, 2, PNot(any_t()), PTwo(any_t(), any_t()), POpt(any_t()), PAny);
 ds_harness!(c01_ld_res_two_o_gconst, GenericLightDataset<VTI>, 2, PAny, PAny, PTwo(any_t(), any_t()), GConst(any_g()));
 ds_harness!(c01_ld_res_not_p_sgconst, GenericLightDataset<VTI>, 2, PConst(any_t()), PNot(any_t()), PAny, GConst(any_g()));
 ds_harness!(c01_ld_res_gnot, GenericLightDataset<VTI>, 2, PAny, PAny, PAny, GNot(any_g()));
